@@ -56,7 +56,13 @@ func (c *Ctx) evalCallMode(st *State, call *ast.CallExpr, spawn bool) []Val {
 	callee := typeutil.Callee(c.info, call)
 	fn, _ := callee.(*types.Func)
 	if fn == nil {
-		// dynamic call through a function value
+		// dynamic call through a function value: a struct field or a parameter of function type may carry
+		// an assumed contract (`extern field:pkg.Type.Field as F(args) (results)` / `extern param:Key.name as ...`)
+		if ct, sig := c.funcValueContract(call); ct != nil {
+			c.eval(st, call.Fun)
+			args := c.evalArgs(st, call, sig)
+			return c.modularCallSig(st, call, ct, sig, lastName(call.Fun), nil, args)
+		}
 		for _, a := range call.Args {
 			c.eval(st, a)
 		}
@@ -198,6 +204,12 @@ func (c *Ctx) dispatch(st *State, call *ast.CallExpr, fn *types.Func, recv *Val,
 	sig := fn.Type().(*types.Signature)
 	isIfaceMethod := sig.Recv() != nil && types.IsInterface(sig.Recv().Type())
 
+	if isIfaceMethod && recv != nil && !spawn && c.hasLocalDevirt(call, fn) {
+		// a package-local declaration of the dynamic type takes precedence over the interface-level contract
+		if rs, ok := c.devirtCall(st, call, fn, recv, args); ok {
+			return rs
+		}
+	}
 	if ct := e.externFor(fn); ct != nil {
 		return c.modularCall(st, call, fn, ct, recv, args, spawn)
 	}
@@ -624,6 +636,10 @@ func (c *Ctx) modularCall(st *State, call *ast.CallExpr, fn *types.Func, ct *Fun
 	var cpkg *types.Package
 	if !ct.Extern {
 		cpkg = fn.Pkg()
+	} else if ct.PkgPath != "" {
+		if p := c.eng.pkgs[ct.PkgPath]; p != nil {
+			cpkg = p.Types
+		}
 	}
 	short := shortKey(fn)
 	ord := fmt.Sprintf("#%d", c.callOrd[call])
@@ -855,7 +871,12 @@ func (c *Ctx) devirtTarget(info *types.Info, call *ast.CallExpr, fn *types.Func)
 		if n == nil || n.Obj().Pkg() == nil {
 			continue
 		}
-		if cn, ok := c.eng.cs.Devirt[n.Obj().Pkg().Path()+"."+n.Obj().Name()]; ok {
+		full := n.Obj().Pkg().Path() + "." + n.Obj().Name()
+		if cn, ok := c.eng.cs.Devirt[c.unit.Pkg.PkgPath+"|"+full]; ok {
+			conc = cn
+			break
+		}
+		if cn, ok := c.eng.cs.Devirt[full]; ok {
 			conc = cn
 			break
 		}
@@ -874,7 +895,10 @@ func (c *Ctx) devirtTarget(info *types.Info, call *ast.CallExpr, fn *types.Func)
 		return nil, nil
 	}
 	fi := c.eng.funcs[m.FullName()]
-	if fi == nil || !(inlinable(fi.Decl) || c.eng.cs.Inline[m.FullName()]) {
+	if fi == nil {
+		return nil, nil
+	}
+	if !(inlinable(fi.Decl) || c.eng.cs.Inline[m.FullName()]) && c.eng.contractFor(m) == nil {
 		return nil, nil
 	}
 	return fi, ct
@@ -895,6 +919,10 @@ func (c *Ctx) devirtCall(st *State, call *ast.CallExpr, fn *types.Func, recv *Va
 	// the declared dynamic type: the tag is that of *T
 	st.assume(fmt.Sprintf("(= (itag %s) %d)", recv.T, c.eng.typeTag(pt)))
 	rv := Val{T: "(iref " + recv.T + ")", S: "Int", GT: pt}
+	if mct := c.eng.contractFor(m); mct != nil {
+		// the concrete method is under contract: modular call
+		return c.modularCall(st, call, m, mct, &rv, args, false), true
+	}
 	// value-receiver methods of T: load the struct
 	msig := m.Type().(*types.Signature)
 	if _, isPtr := msig.Recv().Type().Underlying().(*types.Pointer); !isPtr {
@@ -903,4 +931,121 @@ func (c *Ctx) devirtCall(st *State, call *ast.CallExpr, fn *types.Func, recv *Va
 		rv = c.cellRead(st, rv.T, ct)
 	}
 	return c.inlineCall(st, call, fi, &rv, args), true
+}
+
+// funcValueContract finds the assumed contract of a call through a function-valued field or parameter.
+func (c *Ctx) funcValueContract(call *ast.CallExpr) (*FuncContract, *types.Signature) {
+	sig, _ := c.typeOf(call.Fun).Underlying().(*types.Signature)
+	if sig == nil {
+		return nil, nil
+	}
+	var key string
+	switch x := unparen(call.Fun).(type) {
+	case *ast.SelectorExpr:
+		if s, ok := c.info.Selections[x]; ok && s.Kind() == types.FieldVal {
+			recv := s.Recv()
+			if p, ok := recv.Underlying().(*types.Pointer); ok {
+				recv = p.Elem()
+			}
+			key = "field:" + typeName(recv) + "." + x.Sel.Name
+		}
+	case *ast.Ident:
+		if o, ok := c.info.ObjectOf(x).(*types.Var); ok && !o.IsField() {
+			key = "param:" + c.unit.Key + "." + x.Name
+		}
+	}
+	if key == "" {
+		return nil, nil
+	}
+	if ct, ok := c.eng.cs.Externs[key]; ok {
+		return ct, sig
+	}
+	return nil, nil
+}
+
+// modularCallSig: modular call against an assumed contract when there is no *types.Func (function values).
+func (c *Ctx) modularCallSig(st *State, call *ast.CallExpr, ct *FuncContract, sig *types.Signature, short string, recv *Val, args []Val) []Val {
+	bound := map[string]Val{}
+	for i, a := range args {
+		if i < len(ct.ParamName) && ct.ParamName[i] != "_" {
+			bound[ct.ParamName[i]] = a
+		}
+	}
+	var cpkg *types.Package
+	if ct.PkgPath != "" {
+		if p := c.eng.pkgs[ct.PkgPath]; p != nil {
+			cpkg = p.Types
+		}
+	}
+	ord := fmt.Sprintf("#%d", c.callOrd[call])
+	pre := st.clone()
+	env := &SpecEnv{c: c, st: st, bound: bound, pkg: cpkg}
+	for i, r := range ct.Requires {
+		t, err := env.trBool(r.Expr)
+		if err != nil {
+			c.abort("contract of %s: requires %d: %v", ct.Key, i+1, err)
+			return c.havocResults(st, call, "res")
+		}
+		c.addObl(st, "pre", fmt.Sprintf("pre@%s%s.%d", short, ord, i+1), t, fmt.Sprintf("precondition `%s` of %s at %s", r.Src, short, c.pos(call)))
+		st.assume(t)
+	}
+	if !ct.HasMod {
+		c.heapHavocAll(st)
+	} else {
+		for _, item := range ct.Modifies {
+			if err := c.applyModifies(st, env, item, nil); err != nil {
+				c.abort("contract of %s: modifies %s: %v", ct.Key, item, err)
+				return c.havocResults(st, call, "res")
+			}
+		}
+	}
+	var results []Val
+	for i := 0; i < sig.Results().Len(); i++ {
+		results = append(results, c.havoc(st, "r_"+mangle(short), sig.Results().At(i).Type()))
+	}
+	na := c.fresh("alloc", "Int")
+	st.assume("(>= " + na + " " + c.allocCur(st) + ")")
+	st.ghost["$alloc"] = Val{T: na, S: "Int"}
+	for _, r := range results {
+		c.refFact(st, r)
+	}
+	post := map[string]Val{}
+	for k, v := range bound {
+		post[k] = v
+	}
+	bindResults(post, ct.ResName, results)
+	env2 := &SpecEnv{c: c, st: st, old: pre, bound: post, pkg: cpkg}
+	for i, en := range ct.Ensures {
+		t, err := env2.trBool(en.Expr)
+		if err != nil {
+			c.abort("contract of %s: ensures %d: %v", ct.Key, i+1, err)
+			return results
+		}
+		st.assume(t)
+	}
+	return results
+}
+
+func (c *Ctx) hasLocalDevirt(call *ast.CallExpr, fn *types.Func) bool {
+	sig := fn.Type().(*types.Signature)
+	var ns []*types.Named
+	if n, ok := types.Unalias(sig.Recv().Type()).(*types.Named); ok {
+		ns = append(ns, n)
+	}
+	if sel, ok := unparen(call.Fun).(*ast.SelectorExpr); ok {
+		if t := c.typeOf(sel.X); t != nil {
+			if n, ok := types.Unalias(t).(*types.Named); ok {
+				ns = append(ns, n)
+			}
+		}
+	}
+	for _, n := range ns {
+		if n.Obj().Pkg() == nil {
+			continue
+		}
+		if _, ok := c.eng.cs.Devirt[c.unit.Pkg.PkgPath+"|"+n.Obj().Pkg().Path()+"."+n.Obj().Name()]; ok {
+			return true
+		}
+	}
+	return false
 }
